@@ -139,7 +139,7 @@ class Explorer:
         return not solve.feasible(self.axioms + self.pc + self.guards + [z3.Not(c)])
 
     # -- obligations -----------------------------------------------------------
-    def oblige(self, name, cond, inputs=None, kind="ensures", deciding=True, note=None):
+    def oblige(self, name, cond, inputs=None, kind="ensures", deciding=True, note=None, _split=False):
         ob = self.obligations.get(name)
         if ob is None:
             ob = self.obligations[name] = Obligation(name, kind, deciding)
@@ -155,6 +155,14 @@ class Explorer:
         if z3.is_true(c):
             ob.backends.add("simplifier")
             return True
+        if z3.is_and(c) and not _split:
+            # one query per conjunct: smaller, more stable queries
+            ok = True
+            for part in c.children():
+                ob.paths -= 1
+                ok = self.oblige(name, part, inputs, kind, deciding, note, _split=False) and ok
+            ob.paths += 1
+            return ok
         assertions = self.axioms + self.pc + [z3.Not(c)]
         if ob.sample is None:
             s = z3.Solver()
@@ -200,6 +208,8 @@ class Explorer:
             self.pc = []
             self.inputs = {}
             self.guards = []
+            self.axioms = []  # definitional axioms are re-stated by each path (they mention that path's fresh symbols)
+            self.axiom_keys = set()
             prev = theory.CURRENT
             theory.CURRENT = self
             try:
@@ -210,6 +220,8 @@ class Explorer:
             finally:
                 theory.CURRENT = prev
             self.paths += 1
+            if getattr(self, "deadline", None) and time.time() > self.deadline:
+                raise Undecided(f"{self.name}: exploration deadline reached after {self.paths} paths")
             if self.paths > self.max_paths:
                 raise Undecided(f"{self.name}: more than {self.max_paths} paths")
             # advance trail
